@@ -30,7 +30,8 @@ Inductive gtype : Type :=
 | TStarSel (p n : string)      (* *p.T         *)
 | TArr (n : string)            (* []T          *)
 | TArrSel (p n : string)       (* []p.T        *)
-| TEmpty.                      (* interface{}  *)
+| TEmpty                       (* interface{} and every other interface type written in place *)
+| TInline.                     (* struct { ... } written in place: BuildPropertyField has no case for it *)
 
 (* a field / parameter group: "a, b T" has two names, "T" alone (embedded field, unnamed
    parameter) has none *)
@@ -120,6 +121,7 @@ Definition type_tt_tv (t : gtype) : string * string :=
   | TArr n => ("ArrayType", n)
   | TArrSel p n => ("ArrayType", p ++ "." ++ n)
   | TEmpty => ("interface{}", "interface{}")
+  | TInline => ("", "")
   end.
 
 (* the names a group is listed under: getFieldName (the first name, "" for an embedded field or
